@@ -117,7 +117,7 @@ def _relayout(draw, line):
 @st.composite
 def _unit(draw):
     g = _G(draw)
-    pick = draw(st.integers(0, 58))
+    pick = draw(st.integers(0, 62))
     sup = True
     pre = ""
     label = ""
@@ -398,7 +398,37 @@ def _unit(draw):
         body = f"FLAG = {flag}\ndef ident(z):\n    return z\ndef outer(ds):\n    cut = {draw(st.integers(2, 5))}\n    return {call}\nq = outer(ds)"
         sup = False
         label = "mis-attributable-lambdas-with-enclosing-function-variable"
-    elif pick >= 42:
+    elif pick in (59, 60):
+        # a one-line def RE-DEFINED later in the file under the same name (same module, same qualified name), each
+        # version passed by name; optionally the first one is used again afterwards through a saved reference
+        o1, o2 = g.op(), g.op()
+        a = draw(st.sampled_from(ARGS))
+        g.n += 2
+        m1, m2 = 1000 + g.n * 17, 1000 + g.n * 17 + 5
+        k1, k2 = draw(st.sampled_from([(3, 3), (3, 5), (2, 7)]))
+        c1, c2 = (" > 0" if o1 == "Where" else ""), (" > 0" if o2 == "Where" else "")
+        keep = draw(st.booleans())
+        body = (f"def f1({a}): return {a} * {k1} + {m1}{c1}\nq0 = ds.{o1}(f1)\n" + ("old = f1\n" if keep else "")
+                + f"def f1({a}): return {a} * {k2} + {m2}{c2}\nq = ds.{o2}(f1)" + (f"\nq2 = ds.{o1}(old)" if keep else ""))
+        if pick == 60:  # the same inside a function (qualified name outer.<locals>.f1)
+            body = "def outer(ds):\n" + "\n".join("    " + ln for ln in body.split("\n")) + "\n    return q\nq = outer(ds)"
+        label = "one-line-def-redefined-under-the-same-name"
+    elif pick in (61, 62):
+        # one-line defs of the same name in the two arms of an if/else inside a builder that is called several times
+        o = g.op()
+        a = draw(st.sampled_from(ARGS))
+        g.n += 2
+        m1, m2 = 1000 + g.n * 17, 1000 + g.n * 17 + 5
+        c = " > 0" if o == "Where" else ""
+        flags = draw(st.lists(st.booleans(), min_size=2, max_size=4))
+        if len(set(flags)) == 1:
+            flags.append(not flags[0])
+        calls = "; ".join(f"q{i} = build(ds, {fl})" for i, fl in enumerate(flags))
+        ind = "    " if pick == 61 else "\t"
+        body = (f"def build(d, tight):\n{ind}if tight:\n{ind}{ind}def sel({a}): return {a} * 3 + {m1}{c}\n{ind}else:\n{ind}{ind}def sel({a}): return {a} * 5 + {m2}{c}\n"
+                f"{ind}return d.{o}(sel)\n{calls}\nq = q0")
+        label = "one-line-def-same-name-in-both-arms-of-if"
+    elif pick >= 42 and pick <= 58:
         # free-form layout: a chain of 2-3 calls, then line breaks (and comments) at random places where python allows them
         ncalls = draw(st.integers(2, 3))
         chain = "ds"
